@@ -81,6 +81,9 @@ type obs struct {
 	class   string
 	skipped string
 	scrypt  int // metered scrypt Unwrap calls
+
+	tags     []string // coverage cells a generated case declares (plugin replies)
+	sessions int      // plugin processes started
 }
 
 func (o *obs) set(c string) {
@@ -1223,6 +1226,8 @@ var targets = []*target{
 	{name: "PluginParseIdentity", fn: targetPluginParseIdentity, run: runPluginIdentity, grammar: "bech32", fuzzExecs: execsFast, quickN: 20000},
 	{name: "PluginIdentityWithoutData", fn: targetPluginIdentityWithoutData, run: runPluginWithoutData, grammar: "name", fuzzExecs: execsFast, quickN: 20000},
 	{name: "DecryptKeyed", fn: targetDecryptKeyed, run: runDecryptKeyed, grammar: "keyed", fuzzExecs: execsDecrypt, quickN: 20000},
+	// driven by a scripted plugin process per input: no native fuzz target
+	{name: "PluginReplies", fn: targetPluginReplies, run: runPluginReplies, grammar: "plug", fuzzExecs: 0, quickN: 400},
 	{name: "UnwrapStanzas", fn: targetUnwrapStanzas, run: runUnwrapStanzas, grammar: "stanzas", fuzzExecs: execsMedium, quickN: 20000},
 }
 
